@@ -6,7 +6,7 @@ EXTENDS FaultGrammar, Json, IOUtils
 
 CONSTANTS Stride, Pairs, Randoms
 BaseRecs == ndJsonDeserialize(IOEnv.BASES)
-B(i) == [name |-> BaseRecs[i].name, nslots |-> BaseRecs[i].nslots, classes |-> BaseRecs[i].classes]
+B(i) == [name |-> BaseRecs[i].name, nslots |-> BaseRecs[i].nslots, classes |-> BaseRecs[i].classes, ntails |-> BaseRecs[i].ntails, nbodies |-> BaseRecs[i].nbodies]
 Emit(b, fs) == PrintT(<<"REPLAY", ToJson([base |-> b.name, faults |-> fs])>>)
 SlotF(i, v) == [k |-> "slot", slot |-> i, val |-> v]
 SlotCases(b, bi) ==
@@ -21,12 +21,15 @@ PairCases(b, bi) ==
   \A p \in 1..Pairs : LET i == (p * 37 + bi * 11) % b.nslots  j == (p * 101 + 13) % b.nslots
                           vi == ValuesFor(b.classes[i + 1]) vj == ValuesFor(b.classes[j + 1]) IN
                       i # j => Emit(b, <<SlotF(i, vi[(p % Len(vi)) + 1]), SlotF(j, vj[((p \div 3) % Len(vj)) + 1])>>)
+\* tails and bodies are few: all of them in every tier
+TailCases(b) == \A s \in 0..(b.ntails - 1) : \A j \in 1..Len(ContentTails) : Emit(b, <<[k |-> "tail", stream |-> s, val |-> ContentTails[j]]>>)
+BodyCases(b) == \A o \in 0..(b.nbodies - 1) : \A j \in 1..Len(BodyVals) : Emit(b, <<[k |-> "body", obj |-> o, val |-> BodyVals[j]]>>)
 RandomCases(b) == \A n \in 1..Randoms : Emit(b, <<[k |-> "random", n |-> n, len |-> (n * 97) % 2048, header |-> n % 2 = 0]>>)
 
 VARIABLE done
 MCInit == done = FALSE /\ Init
 MCNext == /\ ~done
-          /\ \A bi \in 1..Len(BaseRecs) : LET b == B(bi) IN SlotCases(b, bi) /\ StructCases(b, bi) /\ KeywordCases(b, bi) /\ PairCases(b, bi)
+          /\ \A bi \in 1..Len(BaseRecs) : LET b == B(bi) IN SlotCases(b, bi) /\ StructCases(b, bi) /\ KeywordCases(b, bi) /\ PairCases(b, bi) /\ TailCases(b) /\ BodyCases(b)
           /\ RandomCases(B(1))
           /\ done' = TRUE /\ UNCHANGED <<nfaults, answered>>
 MCSpec == MCInit /\ [][MCNext]_<<done, nfaults, answered>>
